@@ -93,9 +93,25 @@ pub trait Prop: Sync + Send {
     /// how many runs the tier does by default
     fn runs(&self, tier: Tier) -> u64;
     /// generate the explicit case (schedule + faults + inputs) for one run
-    fn gen(&self, rng: &mut Rng, tier: Tier, index: u64) -> J;
+    fn gen_inner(&self, rng: &mut Rng, tier: Tier, index: u64) -> J;
     /// execute an explicit case; pure function of the case and the code under test
-    fn exec(&self, case: &J, st: &mut Stats) -> Result<RunOut, String>;
+    fn exec_inner(&self, case: &J, st: &mut Stats) -> Result<RunOut, String>;
+    /// `gen_inner` under the simulated clock (server-level generators drive the real server)
+    fn gen(&self, rng: &mut Rng, tier: Tier, index: u64) -> J {
+        let _clock = simkernel::rawsys::clock::enter();
+        self.gen_inner(rng, tier, index)
+    }
+    /// `exec_inner` under the simulated clock: every clock the code under test reads during the run
+    /// starts at a fixed epoch and moves only as the explicit case says
+    fn exec(&self, case: &J, st: &mut Stats) -> Result<RunOut, String> {
+        let _clock = simkernel::rawsys::clock::enter();
+        let r = self.exec_inner(case, st);
+        let reads = simkernel::rawsys::clock::reads();
+        if reads > 0 {
+            st.probe_n("clock_read_during_run", reads);
+        }
+        r
+    }
     /// smaller variants of a case, most aggressive first
     fn shrink(&self, case: &J) -> Vec<J>;
     fn rule(&self) -> &'static str;
